@@ -29,6 +29,7 @@ from histories import History
 import dd.bdd as _bdd        # noqa: E402
 import dd.autoref as _auto   # noqa: E402
 import dd.mdd as _mdd        # noqa: E402
+import dd._copy as _copy     # noqa: E402
 
 DRIVER = 'ddvapi'
 # vcheck builds these executables in addition to the property's own driver
@@ -241,6 +242,29 @@ def _auto_op(op):
         raise RuntimeError('unknown op ' + op)
     return run
 
+
+def _line_xcopy(impl, mid, a):
+    """`dd._copy.copy_bdd(u, target)`: the copy through the public `Function` interface."""
+    a, outs = ca._split_outs(a)
+    other = ca._A(impl)[int(a[1])]
+    r = _copy.copy_bdd(ca._h(impl, a[0]), other)
+    return ca._store(impl, outs[0], r)
+
+
+def _line_xcopy_from(impl, mid, a):
+    """`dd._copy.copy_bdds_from(roots, target)` (one memo for all roots)."""
+    a, outs = ca._split_outs(a)
+    other = ca._A(impl)[int(a[1])]
+    rs = _copy.copy_bdds_from([ca._h(impl, x) for x in split1(a[0])], other)
+    if len({id(r) for r in rs}) != len(rs):
+        raise RuntimeError('HARNESS: the same Function object returned twice (duplicate roots)')
+    out = [ca._store(impl, hid, r) for hid, r in zip(outs, rs)]
+    rs = None
+    return ','.join(out)
+
+
+implmod.EXT_LINE_OPS['a_xcopy'] = _line_xcopy
+implmod.EXT_LINE_OPS['a_xcopy_from'] = _line_xcopy_from
 
 API_AUTO_OPS = ['f_count', 'f_pick', 'a_pick', 'f_exist', 'f_forall', 'f_let_b', 'f_let_r', 'f_let_n',
                 'f_hash', 'f_str', 'a_var_at_level', 'a_level_of_var', 'a_var_levels', 'a_add_expr',
@@ -1168,12 +1192,87 @@ def extra_C15(ctx, t_end):
         s.close()
 
 
+def _xcopies(ctx, t_end):
+    """`dd._copy.copy_bdd` / `copy_bdds_from` between two `dd.autoref` managers with different
+    orders (reordering not enabled): the results denote the same functions of the variable names;
+    counts of BOTH managers = stored edges + live `Function`s after the call (every temporary the
+    recursion created has been released); exact state of both compared with the model."""
+    import sys
+    rng = ctx.rng
+    old_hook = sys.unraisablehook
+    sys.unraisablehook = ca._hook
+    try:
+        k = 0
+        while time.time() < t_end and ctx.time_left() > 3 and k < (12 if ctx.tier == 'quick' else 400):
+            k += 1
+            names = ca.UNIVERSE[:rng.randint(2, 5)]
+            h = ca.AHistory(ctx, names, nmgr=2, every_state=False)
+            w = dict(var=5, const=1, apply=9, ite=2, fop=3, drop=3, gc=1)
+            for _ in range(rng.randint(8, 30)):
+                h.step(w, 0)
+            for _ in range(rng.randint(0, 6)):
+                h.step(w, 1)
+            for _ in range(rng.randint(1, 4)):
+                if h.bad:
+                    break
+                hs0 = h.handles_of(0)
+                if not hs0:
+                    break
+                b0, b1 = h.b(0), h.b(1)
+                if rng.random() < 0.5:
+                    x = rng.choice(hs0)
+                    out = h.fresh()
+                    ans = h.call(0, 'a_xcopy', f'h{x}', 1, outs=[out], dst=1)
+                    pairs = [(x, h.s.val(ans))]
+                else:
+                    # distinct nodes (the same root twice yields the same Function object twice)
+                    by_node = {}
+                    for x in hs0:
+                        by_node.setdefault(h.live[x][1], x)
+                    xs = rng.sample(sorted(by_node.values()), rng.randint(1, min(4, len(by_node))))
+                    outs = [h.fresh() for _ in xs]
+                    ans = h.s.op(0, 'a_xcopy_from', ','.join(f'h{x}' for x in xs), 1, '->', *[f'h{o}' for o in outs])
+                    res = [int(t) for t in ans[3:].split(',')] if ans.startswith('ok ') else [None] * len(xs)
+                    for o, r in zip(outs, res):
+                        if r is not None:
+                            h._register(o, 1, r)
+                    h.after(0, 'a_xcopy_from', ans, state=False)
+                    h.after(1, 'a_xcopy_from', ans, state=False)
+                    pairs = list(zip(xs, res))
+                ctx.evaluations += 1
+                for x, r in pairs:
+                    want = TT(b0, ca.UNIVERSE).of(h.live[x][1])
+                    if r is None or TT(b1, ca.UNIVERSE).of(r) != want:
+                        ctx.violation('dd._copy.copy_bdd gives another function of the variable names', dict(
+                            got=ans, lines=list(h.s.lines), tags=dict(call='_copy.copy_bdd')))
+                bad = canon_problems(b1, sorted(b1.vars))
+                if bad:
+                    ctx.violation('dd._copy.copy_bdd: target not canonical', dict(
+                        problems=bad[:3], lines=list(h.s.lines), tags=dict(call='_copy.copy_bdd', symptom='canon')))
+            if not h.bad:
+                h.s.op(0, 'a_state')
+                h.s.op(1, 'a_state')
+                h.end(0)
+                h.end(1)
+            ctx.case(('xcopy', tuple(names), len(h.s.lines)))
+            ctx.count('xcopy')
+            h.finish('C11 dd._copy.copy_bdd')
+    finally:
+        sys.unraisablehook = old_hook
+
+
+def extra_C11_all(ctx, t_end):
+    half = time.time() + (t_end - time.time()) * 0.5
+    extra_C11(ctx, half)
+    _xcopies(ctx, t_end)
+
+
 EXTRAS = {
     'C02': [_api(extra_C02, 9)],
     'C03': [_api(extra_C03, 8)],
     'C08': [_api(extra_C08, 5)],
     'C10': [_api(extra_C10, 9)],
-    'C11': [_api(extra_C11, 5)],
+    'C11': [_api(extra_C11_all, 8)],
     'C14': [_api(extra_C14, 7)],
     'C15': [_api(extra_C15, 5)],
     'C18': [_api(extra_C18, 6)],
